@@ -266,6 +266,15 @@ def run(prop, tier):
         for i, b in enumerate(b4):
             b["id"] = "s3_%d" % i
         plans.append((s3, b4))
+        # the same on an int8 index: its quantizer was trained by the seed; a block-path batch must not re-encode
+        # (or re-scale) what is already stored -- the replayer compares the exact vectors of untouched ids
+        s8 = dict(SEEDED_IDS5, MaxOps=3 if quick else 4, Cfgs="<- c_CfgsI8")
+        c8 = corpus(chk, "MC_Kektor_seeded_ids5_int8_corpus", s8, workers=8, timeout=3000)
+        b8, _ = vlib.behaviours_from_corpus(c8, max_behaviours=200 if quick else 20000, rng=rng,
+                                            need=lambda ops: any(o.get("op") == "VAddBatch" and o.get("res") == "ok" for o in ops[6:]))
+        for i, b in enumerate(b8):
+            b["id"] = "s8_%d" % i
+        plans.append((s8, b8))
     if use_base:
         # bulk import (VImport is not journaled, VImportCommit snapshots) and wrong-dimension vectors
         imp = dict(IMPORT, MaxOps=2 if quick else 3, MaxRej=0)
